@@ -33,7 +33,9 @@ def run_simple(ctx, prop):
         runs.append(["explore", side, "pct", n, s + 4])
         # simple processors hammered from 3-4 threads with exporter latency (C03), batch + simple with
         # finite flush timeouts (C02)
-        for sc in ["S,3,2,0,1,2,0,0,0,1", "SS,4,1,1,1,1,3,0,0,1", "BS,2,2,2,1,1,1,0,0,1", "BB,1,2,1,2,1,2,1,0,2", "B,2,1,1,1,0,1,0,1,1", "BS,1,2,1,1,1,0,2,0,1"]:
+        for sc in ["S,3,2,0,1,2,0,0,0,1", "SS,4,1,1,1,1,3,0,0,1", "BS,2,2,2,1,1,1,0,0,1", "BB,1,2,1,2,1,2,1,0,2", "B,2,1,1,1,0,1,0,1,1", "BS,1,2,1,1,1,0,2,0,1",
+                   # really slow Exports (5 ms virtual) racing Shutdown with finite timeouts (1 ms / 12 ms) on simple processors
+                   "S,3,2,0,1,9,0,0,0,1", "SS,3,2,0,2,9,1,0,0,1", "BS,2,2,1,1,9,0,0,0,1"]:
             runs.append(["explore", side, "random", n // 2, s + 5, sc])
         for sc in ["S,2,1,0,1,1,0,0,0,1", "BS,1,1,1,1,0,1,0,0,1"]:
             runs.append(["explore", side, "dfs", 10 ** 7, s, sc, 2 if thorough else 1])
